@@ -39,7 +39,7 @@ Definition to_cint (n : Z) : Z :=
 Definition of_cbool (b : bool) : Z := if b then 1 else 0.
 
 Inductive ub := SignedOverflow | UninitValRead (x : string).
-Inductive err := UnknownSymbol (x : string) | InvalidSyscall (n : Z) | NonConstVal (x : string).
+Inductive err := UnknownSymbol (x : string) | InvalidSyscall (n : Z) | NonConstVal (x : string) | RedefinedProc (x : string).
 Inductive cres (A : Type) := COk (a : A) | CUB (u : ub) | CErr (e : err).
 Arguments COk {A}. Arguments CUB {A}. Arguments CErr {A}.
 Definition cbind {A B : Type} (r : cres A) (k : A -> cres B) : cres B :=
@@ -100,8 +100,9 @@ Definition const_of (e : aexpr) : option Z :=
   end.
 
 (* ---------------------------------------------------------------- symbols *)
-(* what ConstProp asks of a Symbol: is its node a ValDecl (and which one), or anything else *)
-Inductive symkind := KValDecl (id : nat) | KOther.
+(* what the passes ask of a Symbol's node: a ValDecl (and which one), a Proc (CreateSymbols refuses a second
+   definition of a procedure name), or anything else *)
+Inductive symkind := KValDecl (id : nat) | KProc | KOther.
 Definition symtab := list ((string * string) * symkind).    (* newest first: std::map operator[] overwrites *)
 
 Fixpoint find_sym (st : symtab) (scope name : string) : option symkind :=
@@ -127,17 +128,32 @@ Fixpoint sym_decls (scope : string) (ds : list decl) (n : nat) (st : symtab) : n
   end.
 Fixpoint sym_formals (scope : string) (fs : list formal) (st : symtab) : symtab :=
   match fs with [] => st | f :: r => sym_formals scope r (((scope, formal_name f), KOther) :: st) end.
+(* CreateSymbols on one procedure: visitPre(Proc) inserts the name in the enclosing (global) scope before enterProc,
+   then the formals and the local declarations go into the procedure's own scope *)
+Definition sym_proc_step (p : proc) (n : nat) (st : symtab) : nat * symtab :=
+  let st1 := (("", pname p), KProc) :: st in
+  let st2 := sym_formals (pname p) (formals p) st1 in
+  sym_decls (pname p) (locals p) n st2.
 Fixpoint sym_procs (ps : list proc) (n : nat) (st : symtab) : nat * symtab :=
   match ps with
   | [] => (n, st)
-  | p :: r =>
-      let st1 := (("", pname p), KOther) :: st in              (* visitPre(Proc) runs before enterProc *)
-      let st2 := sym_formals (pname p) (formals p) st1 in
-      let '(n3, st3) := sym_decls (pname p) (locals p) n st2 in
-      sym_procs r n3 st3
+  | p :: r => let '(n3, st3) := sym_proc_step p n st in sym_procs r n3 st3
   end.
 Definition create_symbols (p : program) : symtab :=
   let '(n, st) := sym_decls "" (globals p) O [] in snd (sym_procs (procs p) n st).
+(* CreateSymbols::visitPre(Proc): `existing = symbolTable.find((scope, name)); if (existing && dynamic_cast<Proc*>(node))
+   throw RedefinedProcError` -- the first procedure whose name is, at that moment, the symbol of a procedure *)
+Fixpoint redefined (ps : list proc) (n : nat) (st : symtab) : option string :=
+  match ps with
+  | [] => None
+  | p :: r =>
+      match find_sym st "" (pname p) with
+      | Some KProc => Some (pname p)
+      | _ => let '(n3, st3) := sym_proc_step p n st in redefined r n3 st3
+      end
+  end.
+Definition redefined_proc (p : program) : option string :=
+  let '(n, st) := sym_decls "" (globals p) O [] in redefined (procs p) n st.
 
 (* ---------------------------------------------------------------- ConstProp *)
 Fixpoint assoc_nat (k : nat) (l : list (nat * Z)) : option Z :=
@@ -150,7 +166,7 @@ Inductive named := NUnknown | NNotVal | NVal (v : Z) | NValUninit.
 Definition resolve (E : cpenv) (x : string) : named :=
   match lookup (cp_syms E) (cp_scope E) x with
   | None => NUnknown
-  | Some KOther => NNotVal
+  | Some KOther | Some KProc => NNotVal
   | Some (KValDecl id) => match assoc_nat id (cp_vals E) with Some v => NVal v | None => NValUninit end
   end.
 
@@ -282,10 +298,12 @@ Fixpoint cp_procs (m : arith) (st : symtab) (ps : list proc) (n : nat) (vals : l
   end.
 
 Definition constprop_program_with (m : arith) (p : program) : cres aprogram :=
+  match redefined_proc p with Some x => CErr (RedefinedProc x) | None =>
   let st := create_symbols p in
   cbind (cp_decls m st "" (globals p) O []) (fun t =>
     let '(gs', n', v') := t in
-    cbind (cp_procs m st (procs p) n' v') (fun ps' => COk {| a_globals := gs'; a_procs := ps' |})).
+    cbind (cp_procs m st (procs p) n' v') (fun ps' => COk {| a_globals := gs'; a_procs := ps' |}))
+  end.
 Definition constprop_program : program -> cres aprogram := constprop_program_with repo_arith.
 
 (* ---------------------------------------------------------------- OptimiseExpr *)
